@@ -430,22 +430,44 @@ pub fn eq_placed<T: PartialEq + Clone>(a: &T, b: &T) -> bool {
     e
 }
 
-macro_rules! m_eq {
-    (yes, $a:expr, $b:expr) => {
-        Some(eq_placed(&$a, &$b))
-    };
-    (no, $a:expr, $b:expr) => {{
-        let _ = (&$a, &$b);
+// `==` is PROBED, not taken from a table: a type that gains a `PartialEq` implementation is compared
+// from then on (autoref specialisation: the `PartialEq` implementation of the probe is found first,
+// the fallback only through one more auto-reference).
+pub struct EqProbe<'a, T>(pub &'a T, pub &'a T);
+pub trait EqYes {
+    fn eq_opt(&self) -> Option<bool>;
+    fn ne_opt(&self) -> Option<bool>;
+}
+impl<'a, T: PartialEq + Clone> EqYes for EqProbe<'a, T> {
+    fn eq_opt(&self) -> Option<bool> {
+        Some(eq_placed(self.0, self.1))
+    }
+    fn ne_opt(&self) -> Option<bool> {
+        Some(self.0 != self.1)
+    }
+}
+pub trait EqNo {
+    fn eq_opt(&self) -> Option<bool>;
+    fn ne_opt(&self) -> Option<bool>;
+}
+impl<'a, T> EqNo for &EqProbe<'a, T> {
+    fn eq_opt(&self) -> Option<bool> {
         None
+    }
+    fn ne_opt(&self) -> Option<bool> {
+        None
+    }
+}
+macro_rules! m_eq {
+    ($table:tt, $a:expr, $b:expr) => {{
+        let r: Option<bool> = (&EqProbe(&$a, &$b)).eq_opt();
+        r
     }};
 }
 macro_rules! m_ne {
-    (yes, $a:expr, $b:expr) => {
-        Some($a != $b)
-    };
-    (no, $a:expr, $b:expr) => {{
-        let _ = (&$a, &$b);
-        None
+    ($table:tt, $a:expr, $b:expr) => {{
+        let r: Option<bool> = (&EqProbe(&$a, &$b)).ne_opt();
+        r
     }};
 }
 macro_rules! m_jump {
